@@ -105,7 +105,7 @@ var reSite = regexp.MustCompile(`(?m)^\s+(/[^\s:]+\.go:\d+)`)
 func PanicSite(stack string) string {
 	for _, x := range reSite.FindAllStringSubmatch(stack, -1) {
 		s := x[1]
-		if strings.Contains(s, "zz_verif") || strings.Contains(s, "/zzverif/") || strings.Contains(s, "/go/src/") || strings.Contains(s, "/pkg/mod/") || strings.Contains(s, "/harness/") {
+		if strings.Contains(s, "zz_verif") || strings.Contains(s, "/zzverif/") || strings.Contains(s, "/go/src/") || strings.Contains(s, "/usr/lib/go") || strings.Contains(s, "/pkg/mod/") || strings.Contains(s, "/harness/") {
 			continue
 		}
 		if i := strings.Index(s, "/repo/"); i >= 0 {
